@@ -509,6 +509,10 @@ def _d1(ctx):
 
 
 def run(ctx):
+    C.require_locals(ctx, ctx.func('KernelDG.find_depending'), ['dst', 'instruction_form', 'flag_dependencies'])
+    C.require_locals(ctx, ctx.func('ISASemantics._apply_found_ISA_data'), ['op_dict'])
+    C.require_locals(ctx, ctx.func('ISASemantics.assign_src_dst'), ['assign_default', 'op_dict', 'instruction_form'])
+    C.require_locals(ctx, ctx.func('KernelDG.create_DG'), ['flag_dependencies'])
     _r1(ctx)
     _r2_r3(ctx)
     _r4(ctx)
